@@ -8,6 +8,7 @@ fetch_add is extracted from sharded.rs on every run.
 -/
 import TracingModel.Props.C06E
 import TracingModel.Lemmas.AtomicCount
+import TracingModel.Lemmas.HandleRace
 
 namespace C06
 open TM.AtomicCount TM.Gen.AtomicCounts
@@ -32,5 +33,18 @@ theorem lost_reference_witness :
     (run false true (fun _ => .inc) (start 1) [0, 1, 0, 1]).c = 2 := by decide
 
 example : (run cloneIsRmw true (fun _ => .inc) (start 1) [0, 1, 1, 0]).c = 3 := by decide
+
+/-- **C06.not_closed_under_a_holder** — threads as programs (clone / drop / give, through handles they hold — an entered guard,
+a child's parent reference and a `Span` clone are such handles), every interleaving of the count operations as the code performs
+them: as long as ANY thread holds a reference the span has not been reported closed — it stays the current span of the threads
+inside it and readable from its children -/
+theorem not_closed_under_a_holder (ths : List Nat) (hnd : ths.Nodup) (t0 : Nat) (h0 : t0 ∈ ths)
+    (sched : List (Nat × TM.HandleRace.Act)) (hs : TM.HandleRace.Within ths sched) (t : Nat) (ht : t ∈ ths)
+    (hheld : (TM.HandleRace.run cloneIsRmw closeDecidedByFetchSub (TM.HandleRace.start t0) sched).held t ≠ 0) :
+    (TM.HandleRace.run cloneIsRmw closeDecidedByFetchSub (TM.HandleRace.start t0) sched).closes = 0 := by
+  rw [show closeDecidedByFetchSub = true by decide, clone_code_fact] at hheld ⊢
+  have h := TM.HandleRace.closed_iff_no_handles ths _ (TM.HandleRace.run_inv ths hnd sched hs _ (TM.HandleRace.inv_start ths hnd t0 h0))
+  have : ¬ (TM.HandleRace.run true true (TM.HandleRace.start t0) sched).closes = 1 := fun e => hheld (h.2.mp e t ht)
+  omega
 
 end C06
